@@ -175,6 +175,7 @@ type Sim struct {
 	objs   int
 	epoch  uint64
 
+	poolMode     uint8 // 0 undecided, 1 sync.Pool stand-in recycles, 2 drops
 	lib          *Rand // stream behind math/rand's package-level functions in instrumented code
 	cur          *Task
 	start        time.Time
@@ -474,6 +475,24 @@ func LibUint64() uint64 {
 		s.St.LibRandStreams++
 	}
 	return s.lib.Uint64()
+}
+
+// PoolDrops reports whether, in this run, the sync.Pool stand-in drops what is put into it
+// (one run in four; drawn from the run's choice source at first use). Outside a run: never.
+//
+//go:norace
+func PoolDrops() bool {
+	s := cur()
+	if s == nil {
+		return false
+	}
+	if s.poolMode == 0 {
+		s.poolMode = 1
+		if s.rng.Uint64()%4 == 0 {
+			s.poolMode = 2
+		}
+	}
+	return s.poolMode == 2
 }
 
 // AtomicYield is the scheduling point the simatomic shim takes before every atomic operation.
